@@ -100,8 +100,13 @@ pub(crate) async fn process_system_event(
                 ep_info.peer_socket_type = peer_socket_type;
               }
 
-              // 2. Reset reconnect backoff state on successful handshake
-              if let Some(recon_state) = core_s_write.reconnect_states.get_mut(&uri) {
+              // 2. Reset reconnect backoff state on successful handshake (kept per connect() target)
+              let target_uri = core_s_write
+                .endpoints
+                .get(&uri)
+                .and_then(|ep_info| ep_info.target_endpoint_uri.clone())
+                .unwrap_or_else(|| uri.clone());
+              if let Some(recon_state) = core_s_write.reconnect_states.get_mut(&target_uri) {
                 recon_state.on_connection_success();
                 tracing::trace!(handle = core_handle, uri = %uri, "Reset reconnect backoff state after success.");
               }
